@@ -22,6 +22,7 @@ import Compress.Proofs.MetaWApi
 import Compress.Proofs.WrapInit
 import Compress.Bzip2.ReaderApi
 import Compress.Proofs.FlateApiRefine
+import Compress.Proofs.FlateApiReset
 
 namespace Compress.Props.C14
 open Compress Compress.Window
@@ -152,5 +153,37 @@ theorem C14_flate_api_reset_fresh (r0 : Reader) (src : Src) (s1 s2 : List Nat)
   refine ⟨ra, rb, _, _, a1, b1, a2, b2, a3, b3, ?_⟩
   rw [Compress.Proofs.FlateApi.close_eq, Compress.Proofs.FlateApi.close_eq, a2, b2, a3, b3]
   split <;> rfl
+
+open Compress.Flate.Api in
+/-- **flate.Reader: Reset = new for EVERY call sequence (API-level model), while the window buffer
+    has not grown.** From ANY state `r0` whose window buffer still has its initial capacity (4096,
+    or never allocated) - closed, failed, abandoned with pending output, a copy in progress, any
+    stale window contents - `Reset` onto a source followed by ANY sequence of Reads and Closes,
+    interleaved in any way, returns call by call exactly what the same sequence returns on a newly
+    constructed reader on that source (bytes and error of every Read, result of every Close), and
+    leaves the same OutputOffset and InputOffset (the sequence is arbitrary, so this holds after
+    every call).  The capacity hypothesis cannot be dropped: `Reset` keeps the window's backing array,
+    a grown window is flushed to the caller in larger pieces, and `Close` drops what is pending - see
+    the evaluated counterexample at the end of `Proofs/FlateApiReset.lean`. -/
+theorem C14_flate_api_reset_fresh_general (r0 : Reader) (src : Src) (ops : List Flate.Api.Op)
+    (hn : ∀ op ∈ ops, op.noReset = true)
+    (hc : r0.core.dict.cap = 0 ∨ r0.core.dict.cap = 4096) :
+    (Reader.run (r0.reset src) ops).2 = (Reader.run (newReader src) ops).2 ∧
+    (Reader.run (r0.reset src) ops).1.outputOffset = (Reader.run (newReader src) ops).1.outputOffset ∧
+    (Reader.run (r0.reset src) ops).1.inputOffset = (Reader.run (newReader src) ops).1.inputOffset :=
+  Compress.Proofs.FlateApiReset.reset_fresh_general r0 src ops hn hc
+
+open Compress.Flate.Api in
+/-- **... and in general the capacity of the retained window buffer is ALL that survives Reset.** Two
+    readers reset onto the same source from ANY two states with the same window capacity (whatever
+    else differs: stale window contents, pending output, latched errors, `done`, counters, trees,
+    a copy in progress) answer every sequence of Reads and Closes identically, call by call, and
+    agree on both counters. -/
+theorem C14_flate_api_reset_capacity_only (r0 r1 : Reader) (src : Src) (ops : List Flate.Api.Op)
+    (hn : ∀ op ∈ ops, op.noReset = true) (hc : r1.core.dict.cap = r0.core.dict.cap) :
+    (Reader.run (r1.reset src) ops).2 = (Reader.run (r0.reset src) ops).2 ∧
+    (Reader.run (r1.reset src) ops).1.outputOffset = (Reader.run (r0.reset src) ops).1.outputOffset ∧
+    (Reader.run (r1.reset src) ops).1.inputOffset = (Reader.run (r0.reset src) ops).1.inputOffset :=
+  Compress.Proofs.FlateApiReset.reset_cap_only r0 r1 src ops hn hc
 
 end Compress.Props.C14
